@@ -178,3 +178,21 @@ PROPS["C01"] = dict(
     technique="Lean 4 table certificates (decide +kernel over exact rationals) and exact-real Clenshaw theorem + oracle correspondence",
     assumptions=["the generating functions are those of Karney (2013) eqs. 15–18, 41–43 (not re-derived from the integrals in Lean)"],
 )
+
+PROPS["C03"] = dict(
+    harnesses=[dict(name="C03", procs_quick=4, procs_thorough=16)],
+    rule=("segments as in C01 (direct, distance and arc, up to two circuits) and point pairs (incl. equatorial, symmetric, nearby) on f ∈ {WGS84, 0, "
+          "±1e-3, ±1/150, ±0.01, ±0.02} (both solvers) and b/a ∈ {1/2, 2} (exact); split point at 37 % of the segment; a triangle closed through a "
+          "third vertex. non-trivial = finite values compared with the oracle; distinct = distinct (op, leading argument bits)"),
+    tolerances={"m12": "2 × position tolerance of C01", "M12, M21": "2·tol/a + 8e-16", "S12": "0.4 m² (|f| ≤ 1/100), 1.5 m² (≤ 1/50), exact: 0.4 / 2 m²; × (a/a_WGS84)² × max(1, a12/180)",
+                "EllipsoidArea": "8 ulp of 4π c2"},
+    level_text=("Theorems: J12 assembled as m0·σ12 + (A1 B1 − A2 B2) equals the combined-series form used when DISTANCE is not requested (ring identity, "
+                "so m12, M12, M21 do not depend on it); the sign bookkeeping of S12 (swapp·lonsign·latsign) and the M12↔M21 exchange under reversal; "
+                "table certificates A1, C1, A2, C2 shared with C01. m12, M12, M21, S12 from the direct, inverse and line interfaces of both solvers are "
+                "compared with the defining expressions evaluated by quadrature in 80-bit arithmetic; reversal, the published addition rules, "
+                "interface agreement, triangle sums and EllipsoidArea = 4πc² are oracles on the implementation. Partial: the C4 area-series table is "
+                "not yet certified in Lean (covered by the oracle)."),
+    level_note="oracle as in C01 plus the area integrand I4 (Karney 2013 eq. 59–61); S12 is not compared where the path touches a pole (it is discontinuous there)",
+    technique="Lean 4 algebraic identities and table certificates + quadrature-oracle correspondence",
+    assumptions=["S12 compared modulo 2πc² for multi-circuit lines"],
+)
